@@ -327,3 +327,42 @@ Example save_reload_roundtrip_example :
   | _ => False
   end.
 Proof. vm_compute. split; reflexivity. Qed.
+
+(** C13.1 composed with the precedence of C20: the saved file re-read together with extra command-line options,
+    `inovesa <extra options> --config <saved>` ([reload_with]).  If the extra options alone are an acceptable invocation
+    (they run in a directory without any config file: no unknown name, no malformed value, no information switch, no
+    `--config`), the re-reading invocation RUNS; a current typed option outside [exempt] that is among the extra options
+    has the member value the extra options alone give it, every other one has the member value of the original
+    invocation (for alpha0 under H3', as in [save_reload_roundtrip]). *)
+Theorem save_reload_with_overrides :
+  forall (T : list opt) (P : prog) (W : wrules) (ex : list string),
+  checker T P = true -> checker13s T W P ex = true ->
+  forall wf zerotok round6, reparse_lawb T wf W = true ->
+  forall cli fs dflt s ftok cli2 s2,
+  parse T wf P cli fs dflt = Run s -> wf TString ftok = true ->
+  parse T wf P cli2 (fun _ => FNoFile) FNoFile = Run s2 ->
+  exists s' items2, reload_with T wf W zerotok round6 P s ftok cli2 = Run s' /\ resolve_all T cli2 = Some items2 /\
+    forall o, In o T -> is_canon o = true -> typed o = true -> mem (o_name o) ex = false ->
+      (occurs (o_name o) items2 = true -> s_vars s' (o_var o) = s_vars s2 (o_var o))
+      /\ (occurs (o_name o) items2 = false ->
+          (String.eqb (o_name o) (w_alpha_name W)
+           && Bool.eqb (var_is_zero zerotok (s_vars s) (w_alpha_var W)) (w_alpha_when_zero W)) = false ->
+          s_vars s' (o_var o) = s_vars s (o_var o)).
+Proof.
+  intros T P W ex CK C13 wf z r LAW cli fs dflt s ftok cli2 s2 H Wf H2.
+  exact (roundtrip_override T wf W z r LAW P ex CK C13 cli fs dflt s ftok cli2 s2 H Wf H2).
+Qed.
+Print Assumptions save_reload_with_overrides.
+
+(** `inovesa -V <t5> -I <t21> <t22> -N <t4>`, saved, then `inovesa -V <t6> -N <t4> --config saved`: V_RF is <t6>, the bunch
+    currents and the steps come back *)
+Example save_reload_with_overrides_example :
+  match parse gen_table wf_all gen_prog [(Short "V", [5%Z]); (Short "I", [21%Z; 22%Z]); (Short "N", [4%Z])] (fun _ => FNoFile) FNoFile with
+  | Run s =>
+    match reload_with gen_table wf_all gen_wrules zero_w round6_w gen_prog s 999%Z [(Short "V", [6%Z]); (Short "N", [4%Z])] with
+    | Run r => (s_vars r "V_RF", s_vars r "I_b", s_vars r "steps_per_Ts") = (Some [6%Z], Some [21%Z; 22%Z], Some [4%Z])
+    | _ => False
+    end
+  | _ => False
+  end.
+Proof. vm_compute. reflexivity. Qed.
